@@ -52,6 +52,9 @@ pub enum Act {
     OrgExpr(u8),
     /// .byte with a constant expression operand
     ByteExpr,
+    /// two .org lines in a row, the second one lower than the first (still not behind the
+    /// counter): nothing was placed at the first position, the second one counts
+    OrgTwice,
     /// .org 0 as the very first line
     Org0Start,
     /// .org back into the item that ends at the counter: nothing may be overwritten => Err
@@ -100,7 +103,7 @@ impl RefModel for Layout {
                 v.extend([Act::Byte(1), Act::Byte(2), Act::Byte(3)]);
             }
         }
-        v.extend([Act::Org(0), Act::Org(1), Act::Org(3)]);
+        v.extend([Act::Org(0), Act::Org(1), Act::Org(3), Act::OrgTwice]);
         // gaps of a page and more (no device selected: every memory is large enough)
         if self.devname.is_none() {
             v.extend([Act::Org(200), Act::Org(201)]);
@@ -147,6 +150,11 @@ impl RefModel for Layout {
                 if *d > 0 {
                     n.occupied[i] = false;
                 }
+                n.fresh = true;
+            }
+            Act::OrgTwice => {
+                n.pc[i] += 1;
+                n.occupied[i] = false;
                 n.fresh = true;
             }
             Act::Org0Start => {
@@ -210,6 +218,12 @@ impl Layout {
             src.push_str(&format!(".device {}\n", d));
         }
         src.push_str(&format!(".equ k_base = {}\n", K_BASE));
+        // feature flags whose names differ from the labels below (and from every reference to them)
+        // in letter case only: flags are told apart by case, they are other names
+        for idx in 0..trace.len().min(6) {
+            src.push_str(&if idx % 2 == 0 { format!(".define l{}X\n", idx) } else { format!("#define L{}x\n", idx) });
+        }
+        src.push_str(".define End_Of_Trace_Lbl\n");
         let mut s = self.init();
         let mut code: Vec<u8> = vec![];
         let mut eeprom: Vec<u8> = vec![];
@@ -277,6 +291,7 @@ impl Layout {
                 Act::ByteExpr => item = Some((".byte k_base + 2".to_string(), vec![0u8; 2])),
                 Act::Org(d) => src.push_str(&format!(".org {}\n", at + gap(*d))),
                 Act::OrgExpr(d) => src.push_str(&format!(".org k_base + {}\n", at + gap(*d))),
+                Act::OrgTwice => src.push_str(&format!(".org {}\n.org {}\n", at + 5, at + 1)),
                 Act::Org0Start => src.push_str(".org 0\n"),
                 Act::OrgBack => {
                     src.push_str(&format!(".org {}\n", at - 1));
@@ -382,6 +397,7 @@ fn act_class(a: &Act) -> &'static str {
         Act::ByteExpr => "byte-expr",
         Act::Org(_) => "org",
         Act::OrgExpr(_) => "org-expr",
+        Act::OrgTwice => "org-twice",
         Act::Org0Start => "org0-start",
         Act::OrgBack => "org-back",
         Act::SegC | Act::SegD | Act::SegE => "segment",
@@ -395,7 +411,7 @@ fn diverge_key(trace: &[Act], kind: &str, m: &Layout) -> String {
     let mut dirs: BTreeSet<&'static str> = BTreeSet::new();
     for a in trace {
         match a {
-            Act::Org(_) | Act::OrgExpr(_) | Act::Org0Start | Act::OrgBack | Act::ByteExpr => {
+            Act::Org(_) | Act::OrgExpr(_) | Act::OrgTwice | Act::Org0Start | Act::OrgBack | Act::ByteExpr => {
                 dirs.insert(act_class(a));
             }
             _ => {}
